@@ -1,7 +1,7 @@
 (** Specification of the SegmentTimeline window of the live MPD (C02, C05): which segments of
     the looped timeline [S]/[E] (Timeline.v) an MPD generated at the instant [now] lists.
     Definitions only (all executable); the proofs are in WindowProofs.v. *)
-From Verif Require Import GoSem Timeline.
+From Verif Require Import GoSem Timeline Publish.
 
 (** number of segments of the table that have ended at the relative media time [t] *)
 Definition cnt (l : list seg) (t : Z) : Z := searchIdx (fun s => en s >? t) l.
@@ -39,3 +39,46 @@ Fixpoint td_contiguous (l : list (Z * Z)) : Prop :=
   | a :: ((b :: _) as t) => fst a + snd a = fst b /\ td_contiguous t
   | _ => True
   end.
+
+(** ** The modelled content of a SegmentTimeline MPD (C05) *)
+
+(** what a client sees of the SegmentTimeline: the start number and the <S> elements *)
+Definition mpdContent (r : rep) (loopMS : Z) (c : tcfg) (now tsbdMS atoMS : Z) : Z * list sentry :=
+  let se := generateTimelineEntries r (calcWrapTimes loopMS c now tsbdMS) atoMS in
+  (se_startNr se, se_entries se).
+
+(** the segment entries as a function of the two edges alone: nothing if no segment has ended,
+    else the run-length encoding of [first .. last] *)
+Definition windowEntries (r : rep) (first last : Z) : segEntries :=
+  if last <? 0 then
+    {| se_startNr := -1; se_entries := []; se_lsi_nr := -1; se_lsi_start := 0; se_lsi_dur := 0 |}
+  else
+    let t := S r first in
+    let d := E r first - S r first in
+    let '(es, (ls, ld, ln)) :=
+        tlLoop r (Z.to_nat (last - first)) (first + 1) d t {| e_t := t; e_d := d; e_r := 0 |} [] t d first in
+    {| se_startNr := first; se_entries := es; se_lsi_nr := ln; se_lsi_start := ls; se_lsi_dur := ld |}.
+
+(** every segment of the table has the duration [d] *)
+Definition const_dur (r : rep) (d : Z) : Prop := Forall (fun s => sdur s = d) (segs r).
+
+(** ** Stop time (LiveMPD): after the configured stop the MPD is generated for the stop instant
+    and made static with the duration stop - start. *)
+Definition endTimeMS (stop : option Z) (now : Z) : Z :=
+  match stop with Some s => if s * 1000 <? now then s * 1000 else now | None => now end.
+Definition afterStop (stop : option Z) (now : Z) : bool :=
+  match stop with Some s => s * 1000 <? now | None => false end.
+
+Record mpdView := {
+  v_static : bool;                 (* @type = static *)
+  v_durS : option Z;               (* @mediaPresentationDuration in seconds *)
+  v_publishMS : Z;
+  v_content : Z * list sentry
+}.
+
+Definition liveMPDView (r : rep) (loopMS : Z) (c : tcfg) (stop : option Z) (now tsbdMS atoMS : Z) : mpdView :=
+  let e := endTimeMS stop now in
+  {| v_static := afterStop stop now;
+     v_durS := match stop with Some s => if s * 1000 <? now then Some (s - startS c) else None | None => None end;
+     v_publishMS := mpdPublishMS r loopMS c e tsbdMS atoMS;
+     v_content := mpdContent r loopMS c e tsbdMS atoMS |}.
